@@ -444,7 +444,8 @@ seq_t dtw_warping_paths{{ suffix }}{{ suffix2 }}(seq_t *wps,
         // Find smallest value in last column
         if (settings->psi_1e != 0) {
             wpsi = final_wpsi;
-            for (ri=l1-1; ri>l1-settings->psi_1e-2; ri--) {
+            // Only rows whose window reaches the last column store that column in this position
+            for (ri=l1-1; ri>l1-settings->psi_1e-2 && ri>=MAX(0, l2-p.ldiffc-p.window); ri--) {
                 if (wps[wpsi] < mir_value) {
                     mir_value = wps[wpsi];
                     mir_rel = ri + 1;
@@ -457,7 +458,8 @@ seq_t dtw_warping_paths{{ suffix }}{{ suffix2 }}(seq_t *wps,
         // Find smallest value in last row
         if (settings->psi_2e != 0) {
             wpsi = final_wpsi;
-            for (ci=l2-1; ci>l2-settings->psi_2e-2; ci--) {
+            // Only the columns inside the window of the last row are stored in this row
+            for (ci=l2-1; ci>l2-settings->psi_2e-2 && ci>=MAX(0, l1-p.ldiffr-p.window); ci--) {
                 if (wps[wpsi] < mic_value) {
                     mic_value = wps[wpsi];
                     mic = ci + 1;
